@@ -14,6 +14,8 @@ na = []
 for p in props:
     pid = p["id"]
     c = claims["claims"].get(pid)
+    if c and pid not in claims.get("ready", []):
+        c = None
     if not c:
         na.append({"property_id": pid, "reason": claims["unclaimed"].get(pid, "no check built yet; see DESIGN.md section 5 for the planned model - not claimed until the check exists and passes on the unchanged tree")})
         continue
@@ -45,7 +47,7 @@ m = {
     ],
     "checks": checks,
     "not_applicable": na,
-    "notes": "fix: commits in /repo: " + "; ".join(claims.get("fix_commits", [])),
+    "notes": "fix: commits in /repo are listed in known_findings.json under `fixed`; hook commits under hooks.source_commits",
 }
 json.dump(m, open(os.path.join(ROOT, "MANIFEST.json"), "w"), indent=1)
 print("claimed", len(checks), "unclaimed", len(na))
